@@ -147,7 +147,7 @@ Proof.
 Qed.
 
 Lemma calc_twa_full vs n : 1 <= n -> zlen vs = n ->
-  calc_twa vs n = Some ((zsum (firstn (Z.to_nat n) vs) mod two64) / n).
+  calc_twa vs n = Some (zsum (firstn (Z.to_nat n) vs) / n).
 Proof.
   intros Hn Hl. unfold calc_twa.
   destruct (Z.leb_spec n 0); [lia|]. destruct (Z.ltb_spec (zlen vs) n); [lia|]. reflexivity.
@@ -158,17 +158,17 @@ Proof. intros; left; cbn; unfold zlen; cbn; repeat split; lia. Qed.
 
 (* the second half of UpdatePriceList on a positive sample *)
 Lemma tail_inv n r tw h :
-  2 <= n -> r > 0 -> Ring n h tw ->
+  1 <= n -> r > 0 -> Ring n h tw ->
   exists tw', update_tail n r (Some tw) = Ok (Some tw') /\ Ring n (r :: h) tw' /\
               disc tw' = disc tw /\
               (active tw' = true ->
-               avg tw' = (zsum (firstn (Z.to_nat n) (r :: h)) mod two64) / n).
+               avg tw' = (zsum (firstn (Z.to_nat n) (r :: h))) / n).
 Proof.
   intros Hn Hr HR. unfold update_tail.
   destruct (Z.gtb_spec r 0) as [_|]; [|lia].
   assert (Hfull : forall tw0, zlen (r :: h) >= n -> Ring n (r :: h) tw0 ->
-             (zsum (firstn (Z.to_nat n) (vals tw0)) mod two64) / n
-             = (zsum (firstn (Z.to_nat n) (r :: h)) mod two64) / n).
+             (zsum (firstn (Z.to_nat n) (vals tw0))) / n
+             = (zsum (firstn (Z.to_nat n) (r :: h))) / n).
   { intros tw0 Hge HR0. rewrite (ring_sum n (r :: h) tw0 HR0 Hge). reflexivity. }
   destruct HR as [(Hlt & Hv & Hi & Ha)|(Hge & Hlen & Hidx & Hrot)].
   - (* window not yet full: append *)
@@ -182,7 +182,7 @@ Proof.
       rewrite (calc_twa_full _ n) by (lia || exact Hln).
       eexists; split; [reflexivity|].
       assert (HRn : Ring n (r :: h) (mkTwa (vals tw ++ [r]) 0
-                       (zsum (firstn (Z.to_nat n) (vals tw ++ [r])) mod two64 / n) true (disc tw))).
+                       (zsum (firstn (Z.to_nat n) (vals tw ++ [r])) / n) true (disc tw))).
       { right. cbn [vals idx]. repeat split; try lia.
         change (Z.to_nat 0) with O. cbn [skipn firstn]. rewrite app_nil_r, Hvs.
         rewrite firstn_all2; [reflexivity|]. unfold zlen in *; lia. }
@@ -207,6 +207,23 @@ Proof.
       intros _. cbn [avg]. apply (Hfull _ Hzr (HRn 0 true)).
 Qed.
 
+(* the first sample of a fresh record *)
+Lemma tail_none n r : 1 <= n -> r > 0 ->
+  exists tw', update_tail n r None = Ok (Some tw') /\ Ring n [r] tw' /\ disc tw' = -1 /\
+              (active tw' = true -> avg tw' = zsum (firstn (Z.to_nat n) [r]) / n).
+Proof.
+  intros Hn Hr. unfold update_tail. destruct (Z.gtb_spec r 0) as [_|]; [|lia].
+  destruct (Z.geb_spec 1 n) as [H1|H1].
+  - assert (n = 1) by lia. subst n.
+    rewrite (calc_twa_full [r] 1) by (lia || reflexivity).
+    eexists; split; [reflexivity|]. split.
+    + right. cbn [vals idx]. unfold zlen; cbn [length]. repeat split; try lia.
+    + split; [reflexivity|]. intros _. reflexivity.
+  - eexists; split; [reflexivity|]. split.
+    + left. cbn [vals idx active rev app]. unfold zlen; cbn [length]. repeat split; lia.
+    + split; [reflexivity|]. cbn [active]. discriminate.
+Qed.
+
 Lemma tail_zero n r tw : r <= 0 -> update_tail n r (Some tw) = Ok (Some tw).
 Proof. intros; unfold update_tail. destruct (Z.gtb_spec r 0); [lia|reflexivity]. Qed.
 
@@ -224,7 +241,7 @@ Qed.
 
 (* one step of the per-asset pipeline preserves the invariant and does not panic *)
 Theorem mstep_inv n gap g t o :
-  2 <= n -> Inv17 n g t ->
+  1 <= n -> Inv17 n g t ->
   exists t', mstep n gap t o = Ok t' /\ Inv17 n (ghost_step gap g o) t'.
 Proof.
   intros Hn HI. destruct o as [h r| |]; cbn [mstep ghost_step].
@@ -248,11 +265,11 @@ Proof.
         exists (Some tw'); split; [exact Ht|]. cbn [Inv17 g_exists g_disc g_hist]. repeat split; try assumption;
         congruence.
       * rewrite tail_zero by lia. eexists; split; [reflexivity|]. cbn [Inv17]. repeat split; assumption.
-    + rewrite HI. unfold update, update_tail.
+    + rewrite HI. unfold update.
       destruct (Z.gtb_spec r 0) as [Hr|Hr].
-      * eexists; split; [reflexivity|]. cbn [Inv17 g_exists g_disc g_hist disc]. repeat split.
-        left. cbn [vals idx active rev app]. unfold zlen; cbn [length]. repeat split; lia.
-      * eexists; split; [reflexivity|]. exact HI.
+      * destruct (tail_none n r Hn ltac:(lia)) as (tw' & Ht & HR' & Hd' & _).
+        exists (Some tw'); split; [exact Ht|]. cbn [Inv17 g_exists g_disc g_hist]. repeat split; assumption.
+      * unfold update_tail. destruct (Z.gtb_spec r 0); [lia|]. eexists; split; [reflexivity|]. exact HI.
   - (* DiscardReset *)
     destruct t as [tw|]; cbn [option_map Inv17] in *.
     + destruct HI as (He & Hd & HR). eexists; split; [reflexivity|].
@@ -270,7 +287,7 @@ Definition ghost_run (gap : Z) (g : ghost) (ops : list mop) : ghost := fold_left
 
 (* every finite history: no panic, invariant at the end *)
 Theorem mrun_inv n gap ops : forall g t,
-  2 <= n -> Inv17 n g t ->
+  1 <= n -> Inv17 n g t ->
   exists t', mrun n gap t ops = Ok t' /\ Inv17 n (ghost_run gap g ops) t'.
 Proof.
   induction ops as [|o ops IH]; intros g t Hn HI; cbn [mrun ghost_run fold_left].
@@ -288,7 +305,7 @@ Proof.
   intros (_ & _ & [(H1 & H2 & H3 & H4)|(H1 & _)]) Ha; [congruence|exact H1].
 Qed.
 
-Lemma inv_index n g tw : 2 <= n -> Inv17 n g (Some tw) ->
+Lemma inv_index n g tw : 1 <= n -> Inv17 n g (Some tw) ->
   zlen (vals tw) <= n /\ 0 <= idx tw /\ (active tw = true -> zlen (vals tw) = n /\ idx tw < n).
 Proof.
   intros Hn (_ & _ & [(H1 & H2 & H3 & H4)|(H1 & H2 & H3 & H4)]).
@@ -315,9 +332,9 @@ Qed.
 (* the mean: a positive sample that leaves the record active publishes the integer mean of the
    last n accepted samples (modulo the uint64 wrap of the sum, which the code has) *)
 Theorem sample_mean n gap g t h r t' tw' :
-  2 <= n -> Inv17 n g t -> r > 0 ->
+  1 <= n -> Inv17 n g t -> r > 0 ->
   mstep n gap t (Sample h r) = Ok t' -> t' = Some tw' -> active tw' = true ->
-  avg tw' = (zsum (firstn (Z.to_nat n) (g_hist (ghost_step gap g (Sample h r)))) mod two64) / n.
+  avg tw' = (zsum (firstn (Z.to_nat n) (g_hist (ghost_step gap g (Sample h r))))) / n.
 Proof.
   intros Hn HI Hr Hs -> Ha. cbn [mstep ghost_step] in *.
   destruct t as [tw|]; cbn [Inv17] in HI.
@@ -334,8 +351,9 @@ Proof.
     + destruct (Z.gtb_spec r 0) as [_|]; [|lia].
       destruct (tail_inv n r tw (g_hist g) Hn ltac:(lia) HR) as (tw1 & Ht & _ & _ & Hav).
       rewrite Ht in Hs. injection Hs as <-. cbn [g_hist]. auto.
-  - rewrite HI. unfold update, update_tail in Hs. destruct (Z.gtb_spec r 0) as [_|]; [|lia].
-    injection Hs as <-. cbn [active] in Ha. discriminate.
+  - rewrite HI. unfold update in Hs.
+    destruct (tail_none n r Hn Hr) as (tw1 & Ht & _ & _ & Hav).
+    rewrite Ht in Hs. injection Hs as <-. destruct (Z.gtb_spec r 0) as [_|]; [|lia]. cbn [g_hist]. auto.
 Qed.
 
 (* a zero sample deactivates; heights are positive on a real chain *)
@@ -367,7 +385,10 @@ Proof.
       * destruct (idx tw + 1 >=? n).
         -- destruct (calc_twa _ _); [|discriminate]. injection H as <-; reflexivity.
         -- injection H as <-; reflexivity.
-  - destruct (r >? 0); [injection H as <-; reflexivity|discriminate].
+  - destruct (r >? 0); [|discriminate].
+    destruct (1 >=? n).
+    + destruct (calc_twa _ _); [|discriminate]. injection H as <-; reflexivity.
+    + injection H as <-; reflexivity.
 Qed.
 
 Lemma mstep_discok n gap t o t' :
